@@ -87,7 +87,9 @@ def nets_strategy(draw, names, max_nets=8, max_fan=6, min_nets=0):
         src = draw(st.sampled_from(names))
         sinks = draw(st.lists(st.sampled_from(names),
                               min_size=min(min_nets, 1), max_size=max_fan))
-        w = draw(st.sampled_from([1, 1, 1.0, 0, 0.0, 2.5, 3, 0.25]))
+        # weights are traffic estimates: they span many orders of magnitude
+        w = draw(st.sampled_from([1, 1, 1.0, 0, 0.0, 2.5, 3, 0.25, 1e-6,
+                                  1000, 1e6, 1e9]))
         nets.append({"source": src, "sinks": sinks, "weight": w})
     return nets
 
